@@ -240,6 +240,12 @@ def run_property(pid: str, tier: str, seed: int) -> int:
         if pid not in con.props:
             frags = con.partial_props[pid]
             rep.obligations = [o for o in rep.obligations if any(f in o.name for f in frags)]
+        else:
+            # an obligation named in partial_props and stated for those properties only (only_partial) is not counted
+            # under the properties the contract is declared for
+            only = getattr(con, "only_partial", ())
+            if only:
+                rep.obligations = [o for o in rep.obligations if not any(f in o.name for f in only)]
         fn_reports.append(rep)
         for f in rep.failures:
             failures.append((f"{pid}/{con.name}/supported", "unsupported", f))
